@@ -56,7 +56,17 @@ func msmFrameWithTs(typ int, station uint, ts uint) []byte {
 }
 
 var zones = []*time.Location{time.UTC, time.FixedZone("MSK", 3*3600), time.FixedZone("EST", -5*3600),
-	time.FixedZone("IST", 5*3600+1800), time.FixedZone("NZDT", 13*3600), time.FixedZone("HST", -10*3600)}
+	time.FixedZone("IST", 5*3600+1800), time.FixedZone("NZDT", 13*3600), time.FixedZone("HST", -10*3600),
+	civil("Europe/Moscow"), civil("America/New_York"), civil("Australia/Lord_Howe"), civil("Europe/London")}
+
+// civil loads a real time zone with its history of offsets and summer time (UTC if the zone
+// database is missing).
+func civil(name string) *time.Location {
+	if l, err := time.LoadLocation(name); err == nil {
+		return l
+	}
+	return time.UTC
+}
 
 type histItem struct {
 	c    int
@@ -157,6 +167,11 @@ func startTimes(c *Ctx, n int) []time.Time {
 	base := time.Date(2019, 1, 1, 0, 0, 0, 0, time.UTC)
 	for i := 0; i < n; i++ {
 		t := base.Add(time.Duration(r.Int63n(int64(12*365*24))) * time.Hour).Add(time.Duration(r.Int63n(3600000)) * time.Millisecond)
+		if i%4 >= 2 {
+			// any era since the GPS epoch: civil time in Moscow (and everywhere else) has had other
+			// offsets and summer time; system time scales have not
+			t = time.Date(1980, 1, 6, 0, 0, 0, 0, time.UTC).Add(time.Duration(r.Int63n(int64(60*365*24))) * time.Hour).Add(time.Duration(r.Int63n(3600000)) * time.Millisecond)
+		}
 		if i%2 == 0 {
 			// dense within +-30 s of a rollover: Sat 21:00:00, 23:59:42, 23:59:56 UTC
 			sun := time.Date(t.Year(), t.Month(), t.Day(), 0, 0, 0, 0, time.UTC)
@@ -243,7 +258,7 @@ func init() {
 	props["C06"] = &Prop{
 		Rule: "op timehist <T ms> <zone> <true instant/constellation:frame>…: handler.New(T in a random zone, with a sub-ms part) then GetMessage on synthetic CRC-valid " +
 			"MSM4/MSM7 frames of GPS/Glonass/Galileo/BeiDou whose timestamps are the true week positions of instants chosen per the precondition (first >= T in T's week, " +
-			"gaps 0..6d-1ms incl. the boundary values), histories of 1..40 (thorough 400) messages spanning several weeks, start times dense within 30 s of each rollover, " +
+			"gaps 0..6d-1ms incl. the boundary values), histories of 1..40 (thorough 400) messages spanning several weeks, start times dense within 30 s of each rollover, half of them from 2019-2031 and half from any year 1980-2040, in fixed-offset zones and civil zones with summer time (Moscow, New York, Lord Howe, London), " +
 			"illegal timestamps inserted at random; non-trivial = at least two messages; distinct = distinct op line",
 		Gen: gen(false), Oracle: oracleTimes, NonTrivial: nontrivial,
 	}
